@@ -173,7 +173,7 @@ class MutualInfoClimateNetwork(ClimateNetwork):
         """
         return self._cython_calculate_mutual_information(anomaly)
 
-    def mutual_information(self, anomaly=None, dump=True):
+    def mutual_information(self, anomaly=None, dump=True, load=True):
         """
         Return mutual information matrix at zero lag.
 
@@ -184,18 +184,22 @@ class MutualInfoClimateNetwork(ClimateNetwork):
         :type anomaly: 2D Numpy array (time, index)
         :arg anomaly: The anomaly time series.
         :arg bool dump: Store MI in data file.
+        :arg bool load: Try to load MI from data file.
 
         :rtype: 2D Numpy array (index, index)
         :return: the mutual information matrix at zero lag.
         """
         try:
+            if not load:
+                raise IOError
+
             #  Try to load MI from file
             if self.silence_level <= 1:
                 print("Loading mutual information matrix from "
                       f"{self.mi_file}...")
 
-            with open(self.mi_file, 'r', encoding="utf-8") as f:
-                mi = np.load(f)
+            with open(self.mi_file, 'rb') as f:
+                mi = np.load(f, allow_pickle=True)
                 #  Check if the dimensions of mutual_information correspond to
                 #  the grid.
                 if mi.shape != (self.N, self.N):
@@ -211,7 +215,7 @@ class MutualInfoClimateNetwork(ClimateNetwork):
 
             mi = self._cython_calculate_mutual_information(anomaly)
             if dump:
-                with open(self.mi_file, 'w', encoding="utf-8") as f:
+                with open(self.mi_file, 'wb') as f:
                     if self.silence_level <= 1:
                         print("Storing in", self.mi_file)
                     mi.dump(f)
@@ -227,20 +231,22 @@ class MutualInfoClimateNetwork(ClimateNetwork):
         """
         return self._winter_only
 
-    def _set_winter_only(self, winter_only, dump=False):
+    def _set_winter_only(self, winter_only, dump=False, load=True):
         """
         Toggle use of exclusively winter data points for network generation.
 
         :arg bool winter_only: Indicates whether only winter months were used
             for network generation.
         :arg bool dump: Store MI in data file.
+        :arg bool load: Try to load MI from data file.
         """
         self._winter_only = winter_only
         if winter_only:
             winter_anomaly = self.data.anomaly_selected_months([0, 1, 11])
-            mi = self.mutual_information(winter_anomaly, dump=dump)
+            mi = self.mutual_information(winter_anomaly, dump=dump, load=load)
         else:
-            mi = self.mutual_information(self.data.anomaly(), dump=dump)
+            mi = self.mutual_information(self.data.anomaly(), dump=dump,
+                                         load=load)
         self._similarity_measure = mi
 
     def set_winter_only(self, winter_only, dump=True):
@@ -253,7 +259,8 @@ class MutualInfoClimateNetwork(ClimateNetwork):
             for network generation.
         :arg bool dump: Store MI in data file.
         """
-        self._set_winter_only(winter_only, dump=dump)
+        #  A stored MI matrix was computed for the previous setting
+        self._set_winter_only(winter_only, dump=dump, load=False)
         self._regenerate_network()
 
     #
